@@ -62,3 +62,128 @@ package skiplist
 //@   ensures r1 == nil && r0 != nil && slIPos(r0) == 0
 //@   fresh r0
 //@   pure
+
+// ---------------------------------------------------------------------------------------------------
+// C16: the concrete skip list.
+// nodeIn(l, n): node n belongs to list l (the head is not a member). The set is fixed during lookups; Insert adds one node.
+// Representation invariant, for every member (and the head) x and level lv below its height (len(x.next)):
+//   RI-1  x.next[lv] is nil or a member with a strictly greater key whose height exceeds lv
+//   RI-2  level 0 is complete: every member with a key greater than x's is at or after x.next[0]
+//   RI-3  members with equal keys are the same node
+
+//@ spec func nodeIn(l Ref, n Ref) Bool
+//@ spec func nkey(n *Node) any = n.key
+
+//@ func randomHeight
+//@   props C16
+//@   requires maxHeight >= 1
+//@   ensures [in-range] 1 <= r0 && r0 <= maxHeight
+//@   safety on
+//@   loop 0
+//@     invariant 1 <= height && height <= maxHeight
+
+//@ func (*Map).IteratorBetween
+//@   props C16
+//@   requires [shape] skShape(list) && skRI1(list) && skRI2(list) && cmpOK(list.comp)
+//@   ensures [inverted-bounds-rejected] cmpv(list.comp, val(keyLower), val(keyHigher)) > 0 ==> r1 != nil && r0 == nil
+//@   ensures [valid-bounds-accepted] cmpv(list.comp, val(keyLower), val(keyHigher)) <= 0 ==> r1 == nil && r0 != nil
+
+//@ func (OrderedComparator).Compare
+//@   props C16
+//@   ensures [sign] (r0 == 1 || r0 == 0 || r0 == -1)
+//@   modifies nothing
+
+// cmpOK(c): comparator c is consistent (a total preorder given by the sign of Compare).
+//@ spec func cmpOK(c Ref) Bool = (forall a TP$K :: cmpv(c, a, a) == 0) &&
+//@      (forall a TP$K, b TP$K :: (cmpv(c, a, b) > 0 <==> cmpv(c, b, a) < 0) && (cmpv(c, a, b) == 0 <==> cmpv(c, b, a) == 0)) &&
+//@      (forall a TP$K, b TP$K, d TP$K :: cmpv(c, a, b) <= 0 && cmpv(c, b, d) <= 0 ==> cmpv(c, a, d) <= 0) &&
+//@      (forall a TP$K, b TP$K, d TP$K :: cmpv(c, a, b) < 0 && cmpv(c, b, d) <= 0 ==> cmpv(c, a, d) < 0) &&
+//@      (forall a TP$K, b TP$K, d TP$K :: cmpv(c, a, b) <= 0 && cmpv(c, b, d) < 0 ==> cmpv(c, a, d) < 0)
+
+// member-or-head
+//@ spec func mh(l *Map, x Ref) Bool = x == l.head || nodeIn(l, x)
+// "x stands before key k": the head stands before everything
+//@ spec func before(l *Map, x *Node, k TP$K) Bool = x == l.head || cmpv(l.comp, x.key, k) < 0
+
+//@ spec func skShape(l *Map) Bool = l.head != nil && l.comp != nil && !nodeIn(l, l.head) && !nodeIn(l, nil) && 1 <= l.maxHeight && len(l.head.next) == l.maxHeight &&
+//@      (forall n *Node :: nodeIn(l, n) ==> 1 <= len(n.next) && len(n.next) <= l.maxHeight && !fresh(n))
+//@ spec func skRI1(l *Map) Bool = forall x *Node, lv Int :: mh(l, x) && 0 <= lv && lv < len(x.next) && x.next[lv] != nil ==>
+//@      nodeIn(l, x.next[lv]) && lv < len(x.next[lv].next) && before(l, x, x.next[lv].key)
+//@ spec func skRI2(l *Map) Bool = forall x *Node, m *Node :: mh(l, x) && nodeIn(l, m) && before(l, x, m.key) ==>
+//@      x.next[0] != nil && cmpv(l.comp, x.next[0].key, m.key) <= 0
+//@ spec func skRI3(l *Map) Bool = forall m1 *Node, m2 *Node :: nodeIn(l, m1) && nodeIn(l, m2) && cmpv(l.comp, m1.key, m2.key) == 0 ==> m1 == m2
+
+//@ func findGreaterOrEqual
+//@   props C16
+//@   requires [shape] list != nil && skShape(list) && skRI1(list) && skRI2(list) && cmpOK(list.comp)
+//@   requires [prev-table-size] isnil(prevTable) || len(prevTable) >= list.maxHeight
+//@   requires [prev-table-separate] forall n *Node :: mh(list, n) ==> arr(n.next) != arr(prevTable)
+//@   ensures [none-greater-or-equal] r0 == nil ==> forall m *Node :: nodeIn(list, m) ==> cmpv(list.comp, m.key, key) < 0
+//@   ensures [is-member-and-ge] r0 != nil ==> nodeIn(list, r0) && cmpv(list.comp, key, r0.key) <= 0
+//@   ensures [is-least] r0 != nil ==> forall m *Node :: nodeIn(list, m) && cmpv(list.comp, key, m.key) <= 0 ==> cmpv(list.comp, r0.key, m.key) <= 0
+//@   modifies prevTable[*]
+//@   loop 0
+//@     invariant mh(list, x) && x != nil && before(list, x, key) && 0 <= level && level < len(x.next) && level < list.maxHeight
+
+//@ func (*Node).Next
+//@   props C16
+//@   requires 0 <= height && height < len(n.next)
+//@   ensures r0 == n.next[height]
+//@   modifies nothing
+//@   safety on
+
+//@ func (*Node).SetNext
+//@   props C16
+//@   requires 0 <= height && height < len(n.next)
+//@   ensures n.next[height] == node
+//@   modifies n.next[*]
+//@   safety on
+
+//@ func (*Map).Get
+//@   props C16
+//@   requires [shape] skShape(list) && skRI1(list) && skRI2(list) && skRI3(list) && cmpOK(list.comp)
+//@   ensures [found] forall m *Node :: nodeIn(list, m) && cmpv(list.comp, key, m.key) == 0 ==> err == nil && r0 == m.value
+//@   ensures [not-found] err != nil ==> err == NotFound && (forall m *Node :: nodeIn(list, m) ==> cmpv(list.comp, key, m.key) != 0)
+//@   ensures [found-means-member] err == nil ==> exists m *Node :: nodeIn(list, m) && cmpv(list.comp, key, m.key) == 0 && r0 == m.value
+//@   modifies nothing
+
+//@ func (*Map).Contains
+//@   props C16
+//@   requires [shape] skShape(list) && skRI1(list) && skRI2(list) && skRI3(list) && cmpOK(list.comp)
+//@   ensures [true-if-present] forall m *Node :: nodeIn(list, m) && cmpv(list.comp, key, m.key) == 0 ==> r0
+//@   ensures [false-if-absent] (forall m *Node :: nodeIn(list, m) ==> cmpv(list.comp, key, m.key) != 0) ==> !r0
+//@   modifies nothing
+
+//@ func (*Map).Size
+//@   props C16
+//@   ensures r0 == list.size
+//@   modifies nothing
+
+// Iterators walk level 0. itNode(it): the node the next call of Next delivers.
+
+//@ func (*Map).Iterator
+//@   props C16
+//@   requires [shape] skShape(list)
+//@   ensures r1 == nil && r0 != nil
+//@   modifies nothing
+
+//@ func (*Map).IteratorStartingAt
+//@   props C16
+//@   requires [shape] skShape(list) && skRI1(list) && skRI2(list) && cmpOK(list.comp)
+//@   ensures r1 == nil && r0 != nil
+//@   modifies nothing
+
+//@ func (*Iterator).Next
+//@   props C16
+//@   requires it.node != nil ==> len(it.node.next) >= 1
+//@   requires it.keyHigher != nil ==> it.comp != nil
+//@   ensures [exhausted] old(it.node) == nil || old(it.doneNext) ==> done == Done
+//@   ensures [delivers-current] done == nil ==> r0 == old(it.node).key && r1 == old(it.node).value
+//@   ensures [advances] !(old(it.node) == nil || old(it.doneNext)) ==> it.node == old(it.node).next[0]
+//@   ensures [stops-after-upper-bound] done == nil && old(it.keyHigher) != nil ==> cmpv(it.comp, old(it.node).key, deref(old(it.keyHigher))) <= 0
+//@   ensures [beyond-upper-bound-is-done] !(old(it.node) == nil || old(it.doneNext)) && old(it.keyHigher) != nil &&
+//@           cmpv(it.comp, old(it.node).key, deref(old(it.keyHigher))) > 0 ==> done == Done
+//@   ensures [upper-bound-inclusive] !(old(it.node) == nil || old(it.doneNext)) && old(it.keyHigher) != nil &&
+//@           cmpv(it.comp, old(it.node).key, deref(old(it.keyHigher))) == 0 ==> done == nil && it.doneNext
+//@   modifies it.node, it.doneNext
+//@   safety on
